@@ -564,6 +564,14 @@ func (w *World) PreludeFor(pkg string) (string, []*Oblig, error) {
 	if extra, err := os.ReadFile(filepath.Join(specDir, "v"+pkg+".smt2")); err == nil {
 		sb.Write(extra)
 	}
+	if more, _ := filepath.Glob(filepath.Join(specDir, "v"+pkg+"_*.smt2")); len(more) > 0 {
+		sort.Strings(more)
+		for _, f := range more {
+			if extra, err := os.ReadFile(f); err == nil {
+				sb.Write(extra)
+			}
+		}
+	}
 	// package-local vocabulary from the contract file
 	if pc != nil {
 		for _, s := range pc.Smt {
